@@ -66,9 +66,22 @@ def eligible_lines(path):
     return src, out
 
 
-MODE = os.environ.get("MUT_MODE", "ops")       # "ops" (operator mutants) or "delete" (statement deletion)
+MODE = os.environ.get("MUT_MODE", "ops")       # "ops" (operator mutants), "delete" (statement deletion) or "swap" (sibling identifiers)
 if MODE == "delete":
     OUT = os.path.join(ROOT, "build", "mut-delete")
+if MODE == "swap":
+    OUT = os.path.join(ROOT, "build", "mut-swap")
+    # an identifier replaced by a sibling of the same type / role (what a slip of the hand or a wrong completion produces)
+    SIB = [("cursor", "valid"), ("valid", "cursor"), ("move_left", "move_right"), ("move_right", "move_left"), ("next_older", "next_newer"), ("next_newer", "next_older"),
+           ("CURSOR_FORWARD", "CURSOR_BACKWARD"), ("CURSOR_BACKWARD", "CURSOR_FORWARD"), ("INSERT_CHAR", "DELETE_CHAR"), ("DELETE_CHAR", "INSERT_CHAR"),
+           ("write_str", "writeln_str"), ("writeln_str", "write_str"), ("flush_str", "write_str"), ("flush_bytes", "write_bytes"), ("write_bytes", "flush_bytes"),
+           ("LongOption", "ShortOption"), ("ShortOption", "LongOption"), ("Forward", "Back"), ("Back", "Forward"), ("Up", "Down"), ("Down", "Up"),
+           ("Backspace", "Tab"), ("CARRIAGE_RETURN", "LINE_FEED"), ("LINE_FEED", "CARRIAGE_RETURN"), ("first", "last"), ("last", "first"), ("min", "max"), ("max", "min"),
+           ("start", "end"), ("end", "start"), ("used", "cursor"), ("expected", "partial"), ("partial", "expected"), ("older", "newer"),
+           ("long", "short"), ("short", "long"), ("is_optional", "is_option"), ("Quoted", "Normal"), ("Normal", "Space"), ("Space", "Normal"), ("Unescape", "Quoted"),
+           ("insert", "remove"), ("name", "value_name"), ("value_name", "name"), ("text", "element"), ("len", "cursor"), ("len()", "text().len()"),
+           ("chars().count()", "len()"), ("as_bytes().len()", "chars().count()"), ("position", "rposition"), ("find", "rfind"), ("trim_start", "trim_end"),
+           ("starts_with", "ends_with"), ("skip_while", "take_while"), ("take_while", "skip_while"), ("unwrap_or(0)", "unwrap_or(1)"), ("Ok(())", "Err(Default::default())")]
 
 
 def gen():
@@ -97,6 +110,15 @@ def gen():
                     if newl == code:
                         continue
                     muts.append({"file": path, "line": i + 1, "old": l, "new": newl + l[len(code):]})
+            if MODE == "swap":
+                for a_, b_ in SIB:
+                    for m in re.finditer(r"(?<![\w])" + re.escape(a_) + r"(?![\w])", code):
+                        if code[:m.start()].count('"') % 2 == 1:
+                            continue
+                        # not a declaration of the identifier itself
+                        if re.search(r"\b(fn|let|let mut|struct|enum|mod|const|pub)\s+$", code[:m.start()]):
+                            continue
+                        muts.append({"file": path, "line": i + 1, "old": l, "new": code[:m.start()] + b_ + code[m.end():] + l[len(code):], "swap": True})
             # statement deletion: a single-line statement that is not a declaration (assignment, compound assignment, call)
             st = code.strip()
             if MODE == "delete" and st.endswith(";") and not st.startswith(("let ", "return", "use ", "pub ", "const ", "static ", "type ", "break", "continue")) \
@@ -104,6 +126,8 @@ def gen():
                 muts.append({"file": path, "line": i + 1, "old": l, "new": l[:len(l) - len(l.lstrip())] + "/* deleted */"})
     if MODE == "delete":
         muts = [m for m in muts if m["new"].strip() == "/* deleted */"]
+    if MODE == "swap":
+        muts = [m for m in muts if m.get("swap")]
     # dedupe, stable ids
     seen, res = set(), []
     for m in muts:
@@ -135,6 +159,7 @@ def sh(cmd, cwd=None, env=None, timeout=600):
 
 
 def setup_worker(w):
+    w += int(os.environ.get("MUT_WOFF", "0"))          # several sweeps / batteries at once: disjoint scratch directories
     wt, vb = "/tmp/mut_w%d" % w, "/tmp/mut_v%d" % w
     if not os.path.isdir(wt):
         sh("git -C /repo worktree add -q --detach %s HEAD" % wt)
